@@ -70,7 +70,7 @@ DOCS.update({k: ("collection", v) for k, v in COLLECTIONS.items()})
 
 DELETE = ("<delete>",)
 REPL = [DELETE, None, True, 0, -1, 1.5, "", "x", "1", [], ["x"], [1], [None], {}, {"k": "v"}, {1: 2}, datetime.date(2020, 1, 1), [[]],
-        "2024-13-45", "2023-02-30", "2021/2/30", "not-a-uuid", "5x", "1 of", "and", {"gte": "x"}, {"field": 1}, [{"id": 1}], "critical!", "a{99999999999}", "(a", "10.0.0.1/8", 10**30, float("inf"), float("nan"), -0.0, b"bytes", datetime.datetime(2020, 1, 1, 12, 0)]
+        "2024-13-45", "2023-02-30", "2021/2/30", "not-a-uuid", "5x", "1 of", "and", {"gte": "x"}, {"field": 1}, [{"id": 1}], "critical!", "attack.", ".t1059", ".", "a.b.c", "a{99999999999}", "(a", "10.0.0.1/8", 10**30, float("inf"), float("nan"), -0.0, b"bytes", datetime.datetime(2020, 1, 1, 12, 0)]
 SMALL = ["rule_min", "corr_event_count", "filter_any"]
 
 
